@@ -178,6 +178,14 @@ def target_remove():
             return z3.And(E1.same_as(E), P1.same_as(Pv))
         ex.loops[(qual, "key in list(_ELEMENTS.keys())")] = LoopSpec(invariant=inv, modifies=["key"])
         ex.isinstance_model = lambda ex_, s, v, c: z3.BoolVal(False) if z3.is_expr(v) else None       # `elements` is a single class, not a list
+        symbol_of = z3.Function("symbol_of_class", I, Key)      # Class.get_symbol(): whatever the class currently carries (not necessarily its registry key)
+        orig_ga = ex.getattr
+
+        def ga(base, attr, s, node=None):
+            if z3.is_expr(base) and base.sort() == I and attr == "get_symbol":
+                return ("builtin", lambda ex_, s_, a, kw, n: [(symbol_of(base), s_)])
+            return orig_ga(base, attr, s, node)
+        ex.getattr = ga
         outs = _call(ex, qual, st, args=[elem])
         n_ok = 0
         for val, s1 in outs:
